@@ -494,6 +494,9 @@ func genRandom(t *rapid.T) Case {
 	var toks []tok
 	toks = append(toks, tok{Lit: "/" + rapid.SampledFrom(litTail).Draw(t, "l0")})
 	np := rapid.IntRange(1, 5).Draw(t, "np")
+	if rapid.IntRange(0, 9).Draw(t, "noparams") == 0 {
+		np = 0 // a pattern that is one literal (possibly with escaped special characters)
+	}
 	// skeleton mode: parameters separated by bare slashes (greedy parameters are then delimited by counting slashes, and a
 	// trailing optional parameter that stays empty removes one of them from the path)
 	skeleton := rapid.IntRange(0, 3).Draw(t, "skeleton") == 0
@@ -541,6 +544,12 @@ func genRandom(t *rapid.T) Case {
 			v = rapid.SampledFrom(append([]string{"x/y", "a/b/c"}, valPool...)).Draw(t, "v")
 		}
 		vals = append(vals, v)
+	}
+	if rapid.IntRange(0, 5).Draw(t, "noisepath") == 0 {
+		// an unrelated path: nothing is expected of it except that RoutePatternMatch and dispatch agree
+		c.Expect, c.Variant = "any", "noise"
+		c.Path = wireEsc(rapid.SampledFrom(append([]string{"/foo", "/*", "/:", "/+", "/x/y/z", "/\\*", "/("}, noise...)).Draw(t, "noise"))
+		return c
 	}
 	p, ok, slashless := admissible(toks, vals, c.CS)
 	c.Slashless = slashless
